@@ -251,6 +251,27 @@ example : (getObj (step c14State (.connect 3 c14Clean)).1 3).subs = [] ∧
 
 end Mochi.Broker
 
+namespace Mochi.Broker
+open Mochi.Topics
+
+/-- **why the in-flight records are pinned at `Clients.Add`, not at the end of the op (Go behaviour).**  `c1` (will on
+    `a`, QoS 1) is subscribed to `a` with QoS 1 and holds no in-flight record; it connects again without Clean Start
+    while still connected: the old connection is taken over, its will is published (`attachClient`'s tail of the old
+    handler: /repo/server.go:574 `DisconnectClient(existing, ErrSessionTakenOver)`, :487 `s.sendLWT(cl)`) and delivered to the RESUMED
+    session: at `Clients.Add` the new object has the old object's (zero) records, at the end of the op it has one. -/
+theorem C14_inflight_end_of_op_counterexample :
+    let h : List Op :=
+      [.connect 1 { ver := 5, clean := false, id := [99, 49], sei := some 100,
+                    will := some { topic := [97], payload := [119], qos := 1 } },
+       .recv 1 (.subscribe 5 0 [{ filter := [97], qos := 1 }])]
+    let k : Connect := { ver := 5, clean := false, id := [99, 49], sei := some 100 }
+    let s := run (init {}) h
+    (getObj s 1).inflight.length = 0 ∧
+    (getObj (admitA (connState s 2 k) 2 k).1 2).inflight.length = 0 ∧
+    (getObj (step s (.connect 2 k)).1 2).inflight.length = 1 := by decide
+
+end Mochi.Broker
+
 #print axioms Mochi.Broker.C14_session_present_iff_seq
 #print axioms Mochi.Broker.c14State_reach
 #print axioms Mochi.Broker.C14_clean_start_discards_seq
